@@ -19,6 +19,26 @@ UNKNOWN = _Unknown()
 MAX_STATES = 512
 
 
+class Val:
+    """wrapper with which an atom hook returns an arbitrary abstract value (including None); a bare bool is also accepted"""
+
+    def __init__(self, v):
+        self.v = v
+
+
+class Obj:
+    """some object that is not None (truthy), e.g. 'a record was found'"""
+
+    def __repr__(self):
+        return "<object>"
+
+    def __bool__(self):
+        return True
+
+
+OBJ = Obj()
+
+
 def truth(v):
     """True / False / None (unknown)"""
     if v is UNKNOWN:
@@ -35,6 +55,8 @@ class Evaluator:
     # ------------------------------------------------------------------ expressions
     def eval(self, e, env):
         a = self.atom(e, env)
+        if isinstance(a, Val):
+            return a.v
         if a is not None:
             return a
         if isinstance(e, ast.Constant):
@@ -113,6 +135,8 @@ class Evaluator:
             return eq if isinstance(op, ast.Eq) else not eq
         fake = ast.Compare(left=l, ops=[op], comparators=[r])
         a = self.atom(fake, env)
+        if isinstance(a, Val):
+            return None if a.v is UNKNOWN else bool(a.v)
         if a is not None:
             return a
         lv, rv = self.eval(l, env), self.eval(r, env)
@@ -124,9 +148,9 @@ class Evaluator:
             if isinstance(op, ast.NotEq):
                 return lv != rv
             if isinstance(op, ast.Is):
-                return lv is rv if (lv is None or rv is None or isinstance(lv, bool) or isinstance(rv, bool)) else lv == rv
+                return lv is rv if (lv is None or rv is None or isinstance(lv, (bool, Obj)) or isinstance(rv, (bool, Obj))) else lv == rv
             if isinstance(op, ast.IsNot):
-                return lv is not rv if (lv is None or rv is None or isinstance(lv, bool) or isinstance(rv, bool)) else lv != rv
+                return lv is not rv if (lv is None or rv is None or isinstance(lv, (bool, Obj)) or isinstance(rv, (bool, Obj))) else lv != rv
             if isinstance(op, ast.Lt):
                 return lv < rv
             if isinstance(op, ast.LtE):
@@ -188,6 +212,10 @@ class Evaluator:
             return [(env, ("return", None if s.value is None else self.eval(s.value, env)))]
         if isinstance(s, ast.Raise):
             return [(env, ("raise",))]
+        if isinstance(s, ast.Continue):
+            return [(env, ("continue",))]
+        if isinstance(s, ast.Break):
+            return [(env, ("break",))]
         if isinstance(s, ast.If):
             t = truth(self.eval(s.test, env))
             out = []
